@@ -33,6 +33,7 @@ def check(ctx):
     ctx.rule("R11.6", "arrays handed from update() to the runner are fresh (no view of an attribute-held solver buffer)", 12)
     ctx.rule("R11.7", "no function writes into an array it was handed (output-parameter table excepted)", 1)
     ctx.rule("R11.8", "update() carries no hidden numerical state across calls beyond the confirmed table", 4)
+    ctx.rule("R11.11", "the counter that gates the adaptive rule is the solve-step counter handed in by the runner, nothing the recording resets (shared with C12 R12.1)", 1)
     ctx.rule("R11.1", "recording options (save_every, output_file, progress_interval, monitor, ...) are read only by the runner, the "
                       "data handler, their construction site and post-processing - never by the numerics", 6)
     ctx.rule("R11.2", "observers are pure: the save path and the probe readout write only to HDF5 objects, their own counters and the record buffer", 5)
@@ -104,6 +105,7 @@ def check(ctx):
            detail=V["update_args"][:3], where=fr.fq, construct="self.function(...) arguments", loc=loc(fr, fr.node),
            message=f"the update receives extra arguments: {V['update_args'][:1]}", consequence="recording configuration leaks into the physics update")
     observers(ctx)
+    step_counter(ctx)
     resume(ctx)
     # R11.5: the label/content agreement of C05 R05.1 on the traces of the loop, for every save interval
     frs = repo.func(RUNNER, "Runner._run_stage")
@@ -125,6 +127,14 @@ def check(ctx):
     cross_call_state(ctx, "R11.8", 'state that is neither saved in a frame nor listed as reset at the start of a run: a run resumed from a seed solution (or a second solve() on the same solver) does not reproduce the uninterrupted run')
     ctx.assume("HDF5 round-trips float64/complex128 exactly; resume is claimed for fixed steps and a constant drive only")
     ctx.decline("bit-equality of a resumed run as a whole (follows from R11.4 + determinism C09 + R11.5 in exact terms)")
+
+
+def step_counter(ctx):
+    from ..report import Shared
+    from . import c12
+    c12.check(Shared(ctx, {"R12.1": "R11.11"}, only=lambda inst: inst.startswith("the rule applies only"),
+                     consequence="the adaptive rule is switched by a counter that the recording resets (the record-buffer cursor restarts at every save): "
+                                 "the sequence of time steps, and with it every frame, depends on save_every"))
 
 
 def observers(ctx):
